@@ -1065,9 +1065,29 @@ void output_text(FILE *pfile)
              * until the output phase.
              */
 
-            if (pc->GetColumn() < cpd.column)
+            size_t min_col = cpd.column;
+            Chunk  *tmp    = pc->GetPrev();
+
+            while (  tmp->IsNotNullChunk()
+                  && tmp->Len() == 0
+                  && !tmp->IsNewline())
             {
-               reindent_line(pc, cpd.column);
+               tmp = tmp->GetPrev();
+            }
+
+            if (  tmp->IsNotNullChunk()
+               && !tmp->IsNewline()
+               && tmp->TestFlags(PCF_FORCE_SPACE)
+               && cpd.last_char != ' '
+               && cpd.last_char != '\t')
+            {
+               // the two texts would tokenize differently if they touched
+               min_col++;
+            }
+
+            if (pc->GetColumn() < min_col)
+            {
+               reindent_line(pc, min_col);
             }
             // not the first item on a line
             Chunk *prev = pc->GetPrev();
